@@ -52,6 +52,7 @@ def runLU (kv : List (String × String)) : String :=
   let R := if enc == "v" then reconstructV n res.L res.U res.perm
            else if enc == "m" then reconstructM ratIsOne n res.L res.U res.P
            else Mat.mul n n n res.L res.U
-  s!"route={route} L={showMat n n res.L} U={showMat n n res.U} P={pstr} R={showMat n n R}"
+  let dstr := if (getS kv "det").getD "0" == "1" then showRat (detLU ops ratGt n A) else "-"
+  s!"route={route} L={showMat n n res.L} U={showMat n n res.U} P={pstr} R={showMat n n R} D={dstr}"
 
 end Fastor.Driver
